@@ -1,5 +1,6 @@
 use super::Zerv;
 use crate::error::ZervError;
+use crate::version::zerv::bump::checked_bump;
 use crate::version::zerv::bump::precedence::Precedence;
 
 impl Zerv {
@@ -15,7 +16,11 @@ impl Zerv {
 
         // 2. Bump + Reset step (atomic operation)
         if let Some(increment) = bump_value {
-            self.vars.major = Some(self.vars.major.unwrap_or(0) + increment as u64);
+            self.vars.major = Some(checked_bump(
+                self.vars.major.unwrap_or(0),
+                increment as u64,
+                "major",
+            )?);
             self.reset_lower_precedence_components(&Precedence::Major)?;
         }
 
@@ -34,7 +39,11 @@ impl Zerv {
 
         // 2. Bump + Reset step (atomic operation)
         if let Some(increment) = bump_value {
-            self.vars.minor = Some(self.vars.minor.unwrap_or(0) + increment as u64);
+            self.vars.minor = Some(checked_bump(
+                self.vars.minor.unwrap_or(0),
+                increment as u64,
+                "minor",
+            )?);
             self.reset_lower_precedence_components(&Precedence::Minor)?;
         }
 
@@ -53,7 +62,11 @@ impl Zerv {
 
         // 2. Bump + Reset step (atomic operation)
         if let Some(increment) = bump_value {
-            self.vars.patch = Some(self.vars.patch.unwrap_or(0) + increment as u64);
+            self.vars.patch = Some(checked_bump(
+                self.vars.patch.unwrap_or(0),
+                increment as u64,
+                "patch",
+            )?);
             self.reset_lower_precedence_components(&Precedence::Patch)?;
         }
 
